@@ -35,10 +35,13 @@ def cases(tier, seed):
         for after in (False, True):
             for g in (['naive'] if cl == 'orderbook' else (GRIDS if tier == 'thorough' or cl in ('contract_dicts',) else ['naive'])):
                 out.append(('%s_%s_%s' % (cl, 'after_setup' if after else 'fresh', g), dict(kind='asset', cls=cl, after=after, grid=g)))
-    for g in ('naive', 'cet', 'cet_dst_repeated_hour', 'us_eastern', 'day_unit', 'quarter_hours_minute_unit_cet'):
+    for g in ('naive', 'cet', 'cet_dst_repeated_hour', 'us_eastern', 'day_unit', 'quarter_hours_minute_unit_cet', 'seconds_cet'):
         if tier != 'thorough' and g == 'us_eastern':
             continue
         out.append(('portfolio_with_grid_%s' % g, dict(kind='portfolio', grid=g)))
+    # the run_from_json entry point with a grid other than the one saved with the portfolio
+    out.append(('run_from_json_other_grid_cet', dict(kind='runjson', grid='naive', grid_run='cet')))
+    out.append(('run_from_json_other_grid_day_unit', dict(kind='runjson', grid='cet', grid_run='day_unit')))
     out.append(('stub_validation', dict(kind='stubcheck')))
     return out
 
@@ -58,6 +61,9 @@ def mk_grid(g):
         return eao.assets.Timegrid(shapes.T0, shapes.T0 + dt.timedelta(hours=T), freq='h', main_time_unit='d')
     if g == 'quarter_hours_minute_unit_cet':
         return eao.assets.Timegrid(shapes.T0, shapes.T0 + dt.timedelta(minutes=15 * T), freq='15min', main_time_unit='min', timezone='CET')
+    if g == 'seconds_cet':       # dates with seconds: 20-second steps starting at 00:00:20
+        s0 = pd.Timestamp(shapes.T0) + pd.Timedelta(seconds=20)
+        return eao.assets.Timegrid(s0.to_pydatetime(), (s0 + pd.Timedelta(seconds=20 * T)).to_pydatetime(), freq='20s', main_time_unit='min', timezone='CET')
     if g == 'cet_dst_repeated_hour':
         s = pd.Timestamp('2021-10-31 01:00', tz='UTC')         # = 02:00+01:00, the second 02:00 of that night
         return eao.assets.Timegrid(s.tz_convert('CET'), (s + pd.Timedelta(hours=T)).tz_convert('CET'), freq='h', timezone='CET')
@@ -203,8 +209,12 @@ def portfolio_scenario(D, grid):
     nA, nB = shapes.nodes('A', 'B')
     ct = eao.assets.Contract(name='ct', nodes=nA, price='p', min_cap=D('min', hi=0), max_cap=D('max', lo=0),
                              min_take={'start': [h(0)], 'end': [h(3)], 'values': [D('mintake', hi=0)]})
-    if grid in ('cet_dst_repeated_hour', 'quarter_hours_minute_unit_cet'):
+    if grid in ('cet_dst_repeated_hour', 'quarter_hours_minute_unit_cet', 'seconds_cet'):
         ct.min_take = None
+    if grid == 'seconds_cet':
+        # an asset window with seconds as well
+        ct.start = (pd.Timestamp(shapes.T0) + pd.Timedelta(seconds=40)).to_pydatetime()
+        ct.end = (pd.Timestamp(shapes.T0) + pd.Timedelta(seconds=80)).to_pydatetime()
     st = shapes.mk_storage(D, 'sto', nA, eff=0.75)
     pf = eao.portfolio.Portfolio([ct, st])
     g = mk_grid(grid)
@@ -225,6 +235,42 @@ def portfolio_scenario(D, grid):
     return doc, doc2, p1, p2, same_points, same_tz, [str(t) for t in g.timepoints], [str(t) for t in pf2.timegrid.timepoints]
 
 
+def runjson_scenario(D, grid_saved, grid_run):
+    """serialization.run_from_json(json, prices, timegrid): the problem it optimises is the problem of the original portfolio on the PASSED
+    grid (the portfolio was saved with another grid of its own).  The problem is captured from the real call (wrapper around
+    Portfolio.setup_optim_problem in the checker process); the solver is the recorder stand-in (lifted) / the real one (replay)."""
+    eao = lift.import_eao()
+    ser = eao.serialization
+    nA, nB = shapes.nodes('A', 'B')
+
+    def mk():
+        ct = eao.assets.Contract(name='ct', nodes=nA, price='p', min_cap=D('min', hi=0), max_cap=D('max', lo=0), extra_costs=D('ec', lo=0))
+        st = shapes.mk_storage(D, 'sto', nA, eff=0.75)
+        return eao.portfolio.Portfolio([ct, st])
+    pf = mk()
+    pf.set_timegrid(mk_grid(grid_saved))
+    doc = ser.to_json(pf)
+    pr = mk_prices(D, 'b')
+    captured = []
+    orig = eao.portfolio.Portfolio.setup_optim_problem
+
+    def wrap(self, *a, **k):
+        r = orig(self, *a, **k)
+        captured.append(r)
+        return r
+    eao.portfolio.Portfolio.setup_optim_problem = wrap
+    try:
+        if D.symbolic:
+            from . import c03
+            c03.with_stub('optimal')
+        ser.run_from_json(json_str=doc, prices=pr, timegrid=mk_grid(grid_run))
+    finally:
+        eao.portfolio.Portfolio.setup_optim_problem = orig
+    p_via = captured[-1]
+    p_direct = mk().setup_optim_problem(pr, mk_grid(grid_run))
+    return doc, doc, [(grid_run, p_direct, p_via)]
+
+
 def run_case(case_id, tier, seed, kind, **kw):
     rec = lpsem.Rec(PROP, case_id)
     install_stub()
@@ -234,6 +280,8 @@ def run_case(case_id, tier, seed, kind, **kw):
     def build(D):
         if kind == 'asset':
             return asset_scenario(D, kw['cls'], kw['after'], kw['grid'])
+        if kind == 'runjson':
+            return runjson_scenario(D, kw['grid'], kw['grid_run'])
         return portfolio_scenario(D, kw['grid'])
     kf = 'KF-C11-linked' if kw.get('cls') == 'linked' and known.is_open('KF-C11-linked') else None
     res = lift.explore_build(build, level='A')
@@ -255,7 +303,7 @@ def run_case(case_id, tier, seed, kind, **kw):
         if rec.vacuity(P, base) is None:
             continue
         rec.twin(P, base, z3.BoolVal(False))
-        if kind == 'asset':
+        if kind in ('asset', 'runjson'):
             doc, doc2, out = path.result
             pairs = [(gk, p1, p2) for gk, p1, p2 in out]
         else:
@@ -340,8 +388,8 @@ def observe(case, kwargs, env, rq):
     # replays / validation: the REAL json module, floats
     eao.serialization.json = real_json
     D = lift.Domain(theta=env)
-    if kind == 'asset':
-        doc, doc2, out = asset_scenario(D, kw['cls'], kw['after'], kw['grid'])
+    if kind in ('asset', 'runjson'):
+        doc, doc2, out = asset_scenario(D, kw['cls'], kw['after'], kw['grid']) if kind == 'asset' else runjson_scenario(D, kw['grid'], kw['grid_run'])
         o = dict(problem=obs.problem_obs(out[0][1]) if not isinstance(out[0][1], Exception) else str(out[0][1]))
         if rq.get('kind') == 'replay':
             o['json_equal'] = (doc == doc2)
